@@ -32,6 +32,11 @@ Alpha ==
             [multi |-> FALSE, w |-> 8, h |-> 12, news |-> <<New(1, "MnC", <<109>>, <<>>)>>,
              a0 |-> {OpM("suspend", 1, <<83, 10, 84>>), OpM("println", 1, <<76>>), OpM("set_message", 1, <<120, 121>>), Op("finish", 1), Op("finish_and_clear", 1), Op("reset", 1)},
              a1 |-> {Op("tick", 1), OpN("inc", 1, 1), OpM("println", 1, <<80>>), OpM("set_message", 1, <<122>>), OpM("suspend", 1, <<85>>), OpM("finish_with_message", 1, <<100>>)}]
+      (* one caller and the steady-tick thread (scheduler id 100): its ticks are redraw requests that may come between any two steps of a call *)
+      [] Family = "single_ticker" ->
+            [multi |-> FALSE, w |-> 8, h |-> 12, news |-> <<New(1, "MnC", <<109>>, <<>>)>>,
+             a0 |-> {OpM("suspend", 1, <<83, 10, 84>>), OpM("println", 1, <<76>>), OpM("set_message", 1, <<120, 121>>), Op("finish", 1), Op("finish_and_clear", 1), Op("reset", 1)},        \* no inc / tick: with a ticker installed they leave the repaint to the ticker
+             a1 |-> {}]
       [] Family = "tabs" ->
             [multi |-> FALSE, w |-> 30, h |-> 6, news |-> <<New(1, "PM", <<97, TAB, 98>>, <<112, TAB>>)>>,
              a0 |-> {OpM("set_message", 1, <<120, TAB, 121>>), OpM("set_prefix", 1, <<113, TAB>>), OpM("finish_with_message", 1, <<102, TAB>>), O("set_style", 1, <<>>, 0, "TM")},
@@ -44,16 +49,20 @@ Alpha ==
 A == Alpha
 Seqs1(S) == { <<x>> : x \in S }
 Seqs2(S) == { <<x, y>> : x \in S, y \in S }
-Progs == { <<t0, t1>> : t0 \in Seqs1(A.a0) \cup Seqs2(A.a0), t1 \in Seqs1(A.a1) \cup (IF Two1 THEN Seqs2(A.a1) ELSE {}) }
+Ticker == Family = "single_ticker"
+(* with a ticker: the caller's calls, then disable_steady_tick (which stops and joins the thread); the other "thread" of the schedules is the ticker *)
+Progs == IF Ticker THEN { <<t0 \o <<Op("disable", 1)>>, <<>>>> : t0 \in Seqs1(A.a0) \cup Seqs2(A.a0) }
+         ELSE { <<t0, t1>> : t0 \in Seqs1(A.a0) \cup Seqs2(A.a0), t1 \in Seqs1(A.a1) \cup (IF Two1 THEN Seqs2(A.a1) ELSE {}) }
 
 Rep(x, n) == [j \in 1..n |-> x]
-Scheds == { Rep(f, k) \o Rep(1 - f, j) \o Rep(f, 40) : f \in {0, 1}, k \in 0..K, j \in 1..K }
+Scheds == IF Ticker THEN { Rep(0, k) \o Rep(100, j) \o Rep(0, i) \o Rep(100, 2) \o Rep(0, 40) : k \in 0..(K + 4), j \in 1..3, i \in {0, 2} }
+          ELSE { Rep(f, k) \o Rep(1 - f, j) \o Rep(f, 40) : f \in {0, 1}, k \in 0..K, j \in 1..K }
 
 Init == prog = <<>> /\ done = FALSE
 Pick == prog = <<>> /\ \E p \in Progs : prog' = p /\ UNCHANGED done
 Emit == /\ prog # <<>> /\ ~done
         /\ \A s \in Scheds :
-              PrintT(<<"REPLAY", ToJson([lin |-> TRUE, program |-> Family, setup |-> [multi |-> A.multi, w |-> A.w, h |-> A.h, news |-> A.news, ticker |-> <<>>],
+              PrintT(<<"REPLAY", ToJson([lin |-> TRUE, program |-> Family, setup |-> [multi |-> A.multi, w |-> A.w, h |-> A.h, news |-> A.news, ticker |-> IF Ticker THEN <<1>> ELSE <<>>],
                                         threads |-> prog, schedule |-> s])>>)
         /\ done' = TRUE /\ UNCHANGED prog
 Next == Pick \/ Emit
